@@ -173,7 +173,57 @@ class Gen:
         self.emit("idrain %s %d" % (cur, stop_at))
         self.emit("iclose %s" % cur)
 
+    def run_cycles(self):
+        """init/fin repetitions: every cycle must behave like the first (C16)"""
+        r = self.r
+        ncyc = r.choice([2, 3, 5])
+        for c in range(ncyc):
+            self.emit("init")
+            self.emit("list")
+            # all session slots are free again: the table has 8 slots in the harness build
+            nsess = r.choice([1, 2, 8])
+            for i in range(nsess):
+                self.emit("enter t%d" % i)
+            if nsess == 8:
+                self.emit("enter extra")      # every slot is taken: WARN_MAX_SESSIONS
+                self.emit("leave t7")
+                self.emit("leave t6")         # create_storage needs a slot of its own
+            self.emit("enter s")
+            st = r.choice([b"a", b"cyc", b""])
+            self.emit("create %s" % hx(st))
+            self.live[st] = set()
+            keys = [b"c%03d" % i for i in range(r.choice([5, 40]))] + [b"longer_than_eight_%d" % i for i in range(4)]
+            for k in keys:
+                self.put(st, k, unique=False, info="none")
+            for k in keys[::2]:
+                self.put(st, k, unique=False, info="none")   # overwrite: retires the old value
+            for k in keys[1::3]:
+                self.remove(st, k)
+            self.scan(st, keys, nodes=1)
+            if r.random() < 0.5:
+                self.emit("destroy")
+                self.emit("list")
+                self.emit("create %s" % hx(st))
+                self.live[st] = set()
+                self.put(st, b"after_destroy", unique=True, info="new")
+                self.get(st, b"after_destroy")
+            leave_all = r.random() < 0.6
+            if leave_all:
+                for i in range(nsess if nsess < 8 else 6):
+                    self.emit("leave t%d" % i)
+                self.emit("leave s")
+                # no session is open: the epoch must advance and everything retired must be reclaimed
+                self.emit("epoch")
+                self.emit("sleep 40")
+                self.emit("epoch")
+                self.emit("balance strict")
+            self.emit("fin")
+            self.live = {}
+        return self.out
+
     def run(self):
+        if self.profile == "cycles":
+            return self.run_cycles()
         r = self.r
         self.emit("init")
         self.emit("enter s")
